@@ -38,7 +38,25 @@ CHECKS = {
         ref="DESIGN.md 5 (C16), 2.1"),
 }
 
-PENDING_REASON = "check under construction in this round: model and harness exist (SigCore LL model + correspondence), theorems not yet registered"
+SIG_TECH = 'Coq proof over SigCore (executable LL model of signal_impl/slot_base/slot_rep/trackable/connection with re-entrant user code): invariant WF + rely/guarantee by induction over operations and fuel (SigInv/SigSafe), property lemmas in Sig{Snapshot,Quiesce,Conn,Values}.v + correspondence of the extracted model with the library on generated histories under ASan/UBSan/LSan'
+SIG_NOTE = COMMON_NOTE + " SigCore is hand-written (ownership structural, raw pointers as ids with failing searches = use-after-free); functor destructors with library side effects are modelled only as shared ownership of trackables (performed at the end of the operation); slot-in-slot is covered by AdaptorModel (C09) rather than SigCore; exec_count_ is unbounded in the model (short in C++)."
+CHECKS.update({
+    "C01": dict(technique=SIG_TECH, text="Properties_C01.v: for every program, fuel and well-formed state the emitters' pointer-chasing loop equals the snapshot loop (visits exactly the elements present when the emission started, in order, each looked up at its turn); with slots that do not touch the library exactly the connected, valid, unblocked slots run once each in list order with the emitted argument and nothing else changes; connect appends / connect_first prepends one connected element; size/empty/blocked report the list; at every quiescent point of every history the lists hold only still-connected elements. Correspondence: histories mixing connect, connect_first, disconnect, block/unblock, clear over signals of all emitter flavours (void, value, accumulated, trackable_signal) with emissions at random points; invocation order, arguments, results and size/empty at depth 0 are compared.", note=SIG_NOTE, ref='DESIGN.md 5 (C01), 2.2'),
+    "C02": dict(technique=SIG_TECH, text="Properties_C02.v: after a trackable is destroyed no functor refers to it, every slot that did (variable, list element, copy) is invalid and without functor, and outside an emission its list element is gone; an invalid slot is skipped by every emission and call; the model never binds to or unbinds from a destroyed trackable (that would be ErrUAF, excluded for every program by ll_safe). Reaching through adaptors is C09's theorem. Correspondence: trackables new-ed and delete-d at every point (also inside emissions), functor shapes mem_fun / bind(std::ref) / track_object with 1-3 references incl. duplicates and a virtual-base trackable, shared ownership of a trackable by functor copies; registration counts per trackable are probed.", note=SIG_NOTE, ref='DESIGN.md 5 (C02)'),
+    "C03": dict(technique=SIG_TECH, text='Properties_C03.v: ll_safe -- for every program (slot bodies are arbitrary scripts of the API: connect, connect_first, disconnect self/others, clear, block, destroy trackables incl. their own, drop the last handle, emit recursively, throw) and every nesting depth the model never follows a dangling iterator, erases twice, touches freed objects or loops; emit = snapshot loop for any user code satisfying the proved rely/guarantee discipline (hence: gone-before-turn not invoked, connected-during-emission not invoked now but in every later snapshot, the rest still invoked); after every top-level operation the bookkeeping is back to quiescent and the lists hold exactly the still-connected slots. Correspondence: re-entrant scenario generators (acting slot position x action x depth) under ASan.', note=SIG_NOTE, ref='DESIGN.md 5 (C03), 2.2.1'),
+    "C04": dict(technique=SIG_TECH, text="Properties_C04.v: connected() is true exactly when the handle's element exists and is valid; disconnect at a quiescent point removes exactly that element, leaves every other list and slot alone and nulls every handle to it; disconnect on a handle whose slot is gone changes nothing; a non-null handle always has its element (never dangles) and node ids are never reused; all connection operations are covered by ll_safe. Correspondence: every way a slot disappears x inside/outside emission x later use of every copy.", note=SIG_NOTE, ref='DESIGN.md 5 (C04)'),
+    "C06": dict(technique=SIG_TECH, text='Properties_C06.v: ll_safe over programs that destroy every kind of object (signals and copies, slots, connections, scoped connections, trackables, shared-ownership trackables) at every point and in every order; WF_top after every operation; when every variable is destroyed no signal_impl, no rep and no leaked record remains. Correspondence: random object graphs torn down in random permutations with operations in between, ASan/LSan, allocation balance, registration probes.', note=SIG_NOTE, ref='DESIGN.md 5 (C06)'),
+    "C07": dict(technique=SIG_TECH, text='Properties_C07.v: at every quiescent point of every history a functor copy is held only by a live slot variable or by a connected element of a live list; leaked = 0 (no self_and_iter record is ever dropped while attached -- false before fix 9047103); teardown leaves nothing. Correspondence: live functor instances per identity, registration-list lengths and list sizes at probes, final allocation balance and LSan.', note=SIG_NOTE, ref='DESIGN.md 5 (C07)'),
+    "C08": dict(technique=SIG_TECH, text='Properties_C08.v: an exception at any snapshot position ends the loop there (later slots not invoked) and reaches the caller; the frame is left exactly as on the normal path (placeholder erased, counter restored, deferred sweep run); WF_top holds after an operation that ended with an exception, so every continuation behaves as after a normal end. Correspondence: throws injected in slot bodies at all depths with re-entrant disconnects before them; later emissions, sizes and connection states compared.', note=SIG_NOTE, ref='DESIGN.md 5 (C08)'),
+    "C12": dict(technique=SIG_TECH, text='Properties_C12.v: block()/unblock() on a slot or connection return the previous state and change only that flag; a blocked slot called directly returns the default without invoking; signal block sets the flag of exactly the current elements and keeps the list; blocked() = all flags (true for none); an element blocked when its turn comes is skipped and stays connected (snapshot theorem). Correspondence: block/unblock through slots, connections, scoped connections and signals incl. from inside emissions.', note=SIG_NOTE, ref='DESIGN.md 5 (C12)'),
+    "C13": dict(technique=SIG_TECH, text='Properties_C13.v: without accumulator the result is that of the last slot actually invoked, else the default; accumulator cursors: a dereferenced cursor does not invoke again, a blocked/empty position is never invoked, moving re-arms, scripts that never dereference never invoke. Correspondence: generated accumulator scripts (walk all, stop at threshold, double dereference, reverse, never dereference, cursor copies; prefix and postfix iterator operators) x blocking/validity patterns.', note=SIG_NOTE, ref='DESIGN.md 5 (C13)'),
+    "C14": dict(technique=SIG_TECH, text='Properties_C14.v: copy construction and assignment make both handles refer to one signal_impl (incl. two fresh signals: false before fix aefb40b); move transfers and leaves the source without list; destroying the last handle removes the list and nulls every connection to its elements; destroying a non-last handle keeps the list (for a trackable_signal: keeps the impl; its own forwarders are invalidated). Correspondence: 2-5 handles per family with all handle operations interleaved with connects, emissions, disconnects.', note=SIG_NOTE, ref='DESIGN.md 5 (C14)'),
+    "C15": dict(technique=SIG_TECH, text='Properties_C15.v: a default slot is empty and calling it yields the default; a copy is a new rep with its own id/functor copy/flag and leaves the source untouched (copy of empty or invalid is empty); move empties the source and keeps rep, flag and functor; disconnect empties that slot; slot operations on one variable leave every other variable unchanged. Correspondence: slot-only histories covering each assignment branch, functor instance counts.', note=SIG_NOTE, ref='DESIGN.md 5 (C15)'),
+    "C17": dict(technique=SIG_TECH, text='Properties_C17.v: move construction, release() and swap transfer/exchange the held pointer and change no list and no validity; destruction and assignment from a connection disconnect the held element first (it leaves its list at a quiescent point); the plain connection never dangles. Correspondence: several scoped connections and plain copies over overlapping slots.', note=SIG_NOTE, ref='DESIGN.md 5 (C17)'),
+    "C18": dict(technique=SIG_TECH, text="Properties_C18.v: invoking a make_slot() forwarder is emitting the target with the same argument (result passed through); the forwarder of a trackable_signal refers exactly to that signal object's trackable base, so destroying the signal leaves no functor referring to it (C02), while a copy is a distinct trackable. Correspondence: chains of 2-4 signals, plain and trackable, copies/moves/destructions in any order relative to upstream emissions.", note=SIG_NOTE, ref='DESIGN.md 5 (C18)'),
+})
+
+PENDING_REASON = "check under construction in this round (runner planned in DESIGN.md section 5; not yet registered)"
 NA = {}
 
 
